@@ -62,15 +62,16 @@ def evaluate(sid):
 def main():
     ap = argparse.ArgumentParser()
     ap.add_argument("--from", dest="src")
+    ap.add_argument("--tag", default="")
     a = ap.parse_args()
     os.makedirs(SEEDED, exist_ok=True)
     if a.src:
         for pid in sorted(os.listdir(a.src)):
-            for x in ("A", "B"):
+            for x in ("A", "B", "C"):
                 diff = os.path.join(a.src, pid, x + ".diff")
                 if not os.path.exists(diff):
                     continue
-                sid = "%s-%s" % (pid, x)
+                sid = "%s-%s%s" % (pid, a.tag, x)
                 d = os.path.join(SEEDED, sid)
                 os.makedirs(d, exist_ok=True)
                 shutil.copy(diff, os.path.join(d, "patch.diff"))
